@@ -11,10 +11,13 @@
      before, with the new record inserted if and only if its key lies ahead of the cursor (scan_stable, puts);
    - the list-level and cursor-level facts for removals (a cursor beside a removed record keeps its record, a cursor on
      the removed record reads the successor with skip_next = 1).
-   NOT proved (open): scan_stable for deletes that unlink a node, backward scans after a put, and `fresh_inv` for
-   cursors parked on the head/tail block. *)
+   - C09_scan_stable_del / C09_scan_stable_cursor_del: the same for every successful delete by key and for every
+     removal through a cursor, including the removal of the record the scanning cursor stands on (the cursor then
+     stands on a neighbour with the pending-step marker) and the removal that unlinks a whole node: the remaining
+     forward scan is the old remaining scan minus the deleted key.
+   NOT proved (open): backward scans after a mutation, and `fresh_inv` for cursors parked on the head/tail block. *)
 Require Import List ZArith Lia. Import ListNotations.
-Require Import IW.KV.Node IW.KV.Spec IW.KV.Node_proofs IW.KV.Cursor IW.KV.Cursor_proofs IW.KV.Stable_proofs IW.KV.ScanStable_proofs.
+Require Import IW.KV.Node IW.KV.Spec IW.KV.Node_proofs IW.KV.Cursor IW.KV.Cursor_proofs IW.KV.Stable_proofs IW.KV.ScanStable_proofs IW.KV.StableDel_proofs.
 
 (* _sblk_addkv/_sblk_addkv2: `if (cnpos >= idx) cnpos++` keeps the cursor on its record, for every node content,
    insertion slot and cursor slot *)
@@ -141,6 +144,85 @@ Example C09_scan_stable_example :
   scan_next nat nat 4 9 ex_c ex_cur = [(30,0);(40,0);(50,0)] /\
   scan_next nat nat 4 9 (snd (fst ex_put)) (fix_cursor nat nat 4 2 (snd (fst ex_put)) (snd ex_put) ex_cur)
     = [(25,7);(30,0);(40,0);(50,0)].
+Proof.
+  split; [eexists; split; [reflexivity|split; reflexivity]|]. vm_compute. repeat split.
+Qed.
+
+(* ---- deletes ---- *)
+Theorem C09_scan_stable_del :
+  forall (K V : Type) (cmp : K -> K -> comparison) (IDXNUM PIVOT : nat),
+    (forall a b c : K, cmp a b = Lt -> cmp b c = Eq -> cmp a c = Lt) ->
+    (forall a b : K, cmp a b = CompOpp (cmp b a)) ->
+    (forall a b c : K, cmp a b = Lt -> cmp b c = Lt -> cmp a c = Lt) ->
+    1 <= PIVOT < IDXNUM ->
+    forall k (c c' : chain K V) ch cur id p k0 v0 fuel,
+    del_chain K V cmp c k = Some (c', ch) ->
+    NodeInv K V cmp IDXNUM c -> ids_unique K V c ->
+    node_cursor K V c cur id p -> c_skip cur = 0%Z -> cursor_read K V c cur = Some (k0, v0) ->
+    S (length (flat K V c)) < fuel ->
+    scan_next K V IDXNUM fuel c' (fix_cursor K V IDXNUM PIVOT c' ch cur) =
+    s_del K V cmp (scan_next K V IDXNUM fuel c cur) k.
+Proof.
+  intros K V cmp IDXNUM PIVOT H1 H2 H3 H4 k c c' ch cur id p k0 v0 fuel Hd.
+  apply (scan_stable_del K V cmp IDXNUM PIVOT H1 H2 H3 H4 k c c' ch cur id p k0 v0 fuel).
+  apply (del_chain_effect K V cmp IDXNUM PIVOT H4). exact Hd.
+Qed.
+Print Assumptions C09_scan_stable_del.
+
+(* iwkv_cursor_del: the record at slot i of node nid is removed (whichever cursor asked for it) *)
+Theorem C09_scan_stable_cursor_del :
+  forall (K V : Type) (cmp : K -> K -> comparison) (IDXNUM PIVOT : nat),
+    (forall a b c : K, cmp a b = Lt -> cmp b c = Eq -> cmp a c = Lt) ->
+    (forall a b : K, cmp a b = CompOpp (cmp b a)) ->
+    (forall a b c : K, cmp a b = Lt -> cmp b c = Lt -> cmp a c = Lt) ->
+    1 <= PIVOT < IDXNUM ->
+    forall nid i (c c' : chain K V) ch cur id p k0 v0 fuel,
+    del_by_id K V None c nid i = Some (c', ch) ->
+    NodeInv K V cmp IDXNUM c -> ids_unique K V c ->
+    node_cursor K V c cur id p -> c_skip cur = 0%Z -> cursor_read K V c cur = Some (k0, v0) ->
+    S (length (flat K V c)) < fuel ->
+    exists r k v, In (nid, r) c /\ nth_error r i = Some (k, v) /\
+      scan_next K V IDXNUM fuel c' (fix_cursor K V IDXNUM PIVOT c' ch cur) =
+      s_del K V cmp (scan_next K V IDXNUM fuel c cur) k.
+Proof.
+  intros K V cmp IDXNUM PIVOT H1 H2 H3 H4 nid i c c' ch cur id p k0 v0 fuel Hd Hinv Hu Hnc Hsk Hr Hf.
+  destruct (del_by_id_effect K V cmp IDXNUM PIVOT H2 H4 c nid i c' ch Hd) as [r [k [v [Hin [Hn He]]]]].
+  exists r, k, v. split; [exact Hin|]. split; [exact Hn|].
+  exact (scan_stable_del K V cmp IDXNUM PIVOT H1 H2 H3 H4 k c c' ch cur id p k0 v0 fuel He Hinv Hu Hnc Hsk Hr Hf).
+Qed.
+Print Assumptions C09_scan_stable_cursor_del.
+
+(* what the fix-up leaves behind, case by case (the four outcomes of StableDel_proofs.del_outcome) *)
+Theorem C09_del_keeps_cursor :
+  forall (K V : Type) (cmp : K -> K -> comparison) (IDXNUM PIVOT : nat),
+    (forall a b c : K, cmp a b = Lt -> cmp b c = Eq -> cmp a c = Lt) ->
+    (forall a b : K, cmp a b = CompOpp (cmp b a)) ->
+    1 <= PIVOT < IDXNUM ->
+    forall k (c c' : chain K V) ch cur id p k0 v0,
+    del_chain K V cmp c k = Some (c', ch) -> NodeInv K V cmp IDXNUM c -> ids_unique K V c ->
+    node_cursor K V c cur id p -> cursor_read K V c cur = Some (k0, v0) ->
+    del_outcome K V cmp k c c' cur (fix_cursor K V IDXNUM PIVOT c' ch cur) k0 v0.
+Proof.
+  intros K V cmp IDXNUM PIVOT H1 H2 H4 k c c' ch cur id p k0 v0 Hd.
+  apply (del_keeps_cursor K V cmp IDXNUM PIVOT H1 H2 H4 k c c' ch cur id p k0 v0).
+  apply (del_chain_effect K V cmp IDXNUM PIVOT H4). exact Hd.
+Qed.
+Print Assumptions C09_del_keeps_cursor.
+
+(* Non-vacuity: the cursor stands on the only record of the middle node; deleting that key unlinks the node, the
+   cursor moves to the first record of the next node with the marker set, and the remaining scan is unchanged. *)
+Definition exd_c : chain nat nat := [(1, [(10,0);(20,0)]); (2, [(30,0)]); (3, [(40,0);(50,0)])].
+Definition exd_cur : cursor := at_node nat nat [(1, [(10,0);(20,0)])] 2 [(30,0)] [(3, [(40,0);(50,0)])] 0 PNone.
+Example C09_scan_stable_del_example :
+  node_cursor nat nat exd_c exd_cur 2 0 /\ cursor_read nat nat exd_c exd_cur = Some (30, 0) /\
+  match del_chain nat nat Nat.compare exd_c 30 with
+  | Some (c', ch) =>
+      c' = [(1, [(10,0);(20,0)]); (3, [(40,0);(50,0)])] /\
+      c_skip (fix_cursor nat nat 4 2 c' ch exd_cur) = 1%Z /\
+      scan_next nat nat 4 9 c' (fix_cursor nat nat 4 2 c' ch exd_cur) = [(40,0);(50,0)] /\
+      scan_next nat nat 4 9 exd_c exd_cur = [(40,0);(50,0)]
+  | None => False
+  end.
 Proof.
   split; [eexists; split; [reflexivity|split; reflexivity]|]. vm_compute. repeat split.
 Qed.
